@@ -40,7 +40,48 @@ func c10(c *Ctx) {
 	c.ExpectAll("selfcheck/reports-what-it-wrote", rets, pat("ltx.(*Encoder).Header(ltx.NewEncoder(p2)) | ltx.(*Encoder).Trailer(ltx.NewEncoder(p2))"), 1, "the snapshot reports the header/trailer it wrote", "")
 	c.ckptGate("ckpt-gate")
 	c.ckptCopiesAll("ckpt")
+	c.exportCommandFile("cli")
 }
+
+// exportCommandFile (C10, C16): the export stream carries neither length nor
+// checksum, so the file the command writes IS the export: it must start empty.
+func (c *Ctx) exportCommandFile(prefix string) {
+	p := c.P
+	run := "cmd.(*ExportCommand).Run"
+	var got []string
+	for _, in := range Instrs(c.F(run), p.PlainCalls("os.Create", "os.OpenFile", "os.CreateTemp")) {
+		cc := callCommon(in)
+		name := p.CalleeName(cc)
+		switch name {
+		case "os.Create", "os.CreateTemp":
+			got = append(got, "truncating")
+		default:
+			ok := false
+			if k, isConst := cc.Args[1].(*ssa.Const); isConst && k.Value != nil {
+				if v, exact := constantInt64(k); exact && (v&0x200 != 0 || v&0x80 != 0) { // O_TRUNC or O_EXCL
+					ok = true
+				}
+			}
+			if ok {
+				got = append(got, "truncating")
+			} else {
+				got = append(got, "os.OpenFile without O_TRUNC/O_EXCL at "+c.where(in))
+			}
+		}
+	}
+	c.ExpectAll(prefix+"/export-file-starts-empty", got, "truncating", 1, "litefs export creates its temporary file truncated (os.Create, or OpenFile with O_TRUNC or O_EXCL)",
+		"a longer file left by an interrupted earlier export keeps its tail: the command reports success for the pages of one position followed by pages of another")
+	c.ExpectAll(prefix+"/export-copies-into-that-file", c.CallArgs(run, p.PlainCalls("io.Copy"), 0), pat("os.Create(@@)#0")+"|"+pat("os.OpenFile(@@)#0")+"|"+pat("os.CreateTemp(@@)#0"), 1, "the response body is copied into that file", "")
+	c.Before(prefix+"/export-renamed-after-sync", run, p.PlainCalls("os.Rename"), p.PlainCalls("os.(*File).Sync"), 1, "the file is renamed into place only after it was synced", "")
+}
+
+func constantInt64(k *ssa.Const) (int64, bool) {
+	if k.Value == nil {
+		return 0, false
+	}
+	return k.Int64(), true
+}
+
 
 // ckptGate (C10, C11): TryLocks refuses the CKPT lock to an owner while
 // another owner holds the WAL WRITE lock.
